@@ -403,13 +403,24 @@ impl FixedPoint {
     }
 }
 
+impl FixedPoint {
+    /// Converts an integer into a fixed point number. Fails (rather than
+    /// truncating) if the integer is too large for the whole part.
+    pub fn try_from_integer(value: Integer) -> Result<FixedPoint, &'static str> {
+        let whole = u64::try_from(value.value).map_err(|e| "integer too large")?;
+        Ok(FixedPoint {
+            span: value.span,
+            whole,
+            femptos: 0,
+        })
+    }
+}
+
 impl From<Integer> for FixedPoint {
     fn from(value: Integer) -> Self {
         FixedPoint {
             span: value.span,
-            // Saturate (instead of truncating) so that a value that is too
-            // large is still too large for every consumer
-            whole: u64::try_from(value.value).unwrap_or(u64::MAX),
+            whole: value.value as u64,
             femptos: 0,
         }
     }
